@@ -57,6 +57,8 @@ type Solver struct {
 	Time     time.Duration
 	dead     bool
 	extraOpen bool
+	SlowLog func(time.Duration, Result)
+	SlowThreshold time.Duration
 	HadError bool
 }
 
@@ -280,7 +282,11 @@ func (s *Solver) Check(pc *PCNode, extra *Term) Result {
 	default:
 		s.NUnknown++
 	}
-	s.Time += time.Since(t0)
+	d := time.Since(t0)
+	s.Time += d
+	if s.SlowLog != nil && d > s.SlowThreshold {
+		s.SlowLog(d, res)
+	}
 	return res
 }
 
